@@ -131,7 +131,7 @@ var theFileSysExec = &fileSysExec{}
 var fileCrashRunner = Runner{Mk: func(Cfg) Executor { return theFileSysExec }}
 
 func famFileCrash(f *FamCtx) {
-	f.Report.Rule = "the real file Store runs in a child process under RLIMIT_FSIZE = cut for EVERY cut in 0..len on small nodes (len 1..40 quick, ..300 thorough) and sampled cuts on larger ones, in two modes: the process is killed by SIGXFSZ at the cut (crash) or the write fails with EFBIG (I/O error); the parent then loads the name, stores it again and loads again; outcomes {absent, complete, partial} compared with the Lean step model of the store at the same cut and with C17's statement; and at system-call level: the child runs under strace, which kills it on entering, or fails with EIO, each system call the store makes on the node's directory (probe, temporary file, write, close, chmod, rename) in turn; non-trivial = cases with 0 < cut < len"
+	f.Report.Rule = "the real file Store runs in a child process under RLIMIT_FSIZE = cut for EVERY cut in 0..len on small nodes (len 1..40 quick, ..300 thorough) and sampled cuts on larger ones, in two modes: the process is killed by SIGXFSZ at the cut (crash) or the write fails with EFBIG (I/O error); the parent then loads the name, stores it again and loads again; outcomes {absent, complete, partial} compared with the Lean step model of the store at the same cut and with C17's statement; and at system-call level: the child runs under strace, which kills it on entering, or fails with EIO, each system call the store makes on the node's directory (probe, temporary file, write, close, chmod, rename) in turn; and under a caller's context that turns cancelled at its k-th consultation; non-trivial = cases with 0 < cut < len"
 	rn := fileCrashRunner
 	cfg := Cfg{BF: 16, Fmt: "bin", KK: "u64", VKind: "u64", Cache: "none"}
 	maxLen := f.N(24, 300)
@@ -173,6 +173,14 @@ func famFileCrash(f *FamCtx) {
 		var ops []string
 		for j := 0; j < 9; j++ {
 			ops = append(ops, fmt.Sprintf("fsys %d %d kill", n, j), fmt.Sprintf("fsys %d %d eio", n, j))
+		}
+		f.RunTreeCase(Case{cfg, ops}, rn, func(CaseStats) bool { return true })
+	}
+	// a caller's context that is cancelled while the Store is under way (consultations 0..7)
+	for _, n := range []int{1, 300, 70000, 300000} {
+		var ops []string
+		for k := 0; k < 8; k++ {
+			ops = append(ops, fmt.Sprintf("fctx %d %d", n, k))
 		}
 		f.RunTreeCase(Case{cfg, ops}, rn, func(CaseStats) bool { return true })
 	}
